@@ -13,8 +13,22 @@ from dataclasses import replace
 from . import model as M
 from .model import Prim, Named, Opt, Vec, Map, Union, Arr, Record, Enum, Alias, Protocol, Rng
 
-WIDEN = {"int8": "int16", "int16": "int32", "int32": "int64", "uint8": "uint16", "uint16": "uint32",
-         "uint32": "uint64", "float32": "float64"}
+class _Widen(dict):
+    """The next wider type.  Now and then (decided by a fork of the generator apply_edit() runs with, which consumes nothing)
+    an unsigned type widens to `size` instead - 64 bits under a name of its own - and `size` itself to uint64 or int64."""
+    rng = None
+
+    def __getitem__(self, k):
+        r = _Widen.rng
+        if r is not None and k in ("uint8", "uint16", "uint32") and r.fork("widen-to-size", k).chance(0.3):
+            return "size"
+        if r is not None and k == "size" and r.fork("widen-size", k).chance(0.5):
+            return "int64"
+        return dict.__getitem__(self, k)
+
+
+WIDEN = _Widen({"int8": "int16", "int16": "int32", "int32": "int64", "uint8": "uint16", "uint16": "uint32",
+                "uint32": "uint64", "float32": "float64", "size": "uint64"})
 
 
 def _records(pkg):
@@ -61,6 +75,7 @@ FREE = ["retype_field", "add_protocol", "change_enum"]  # valid packages, but no
 def apply_edit(pkg: M.Package, rng: Rng, kind: str, only=None, only_steps=None):
     """Applies one edit in place. Returns a description string, or None if not applicable.
     only: names of the records that record edits are restricted to."""
+    _Widen.rng = rng
     recs = _records(pkg)
     if only is not None:
         recs = [r for r in recs if r.name in only]
